@@ -792,6 +792,8 @@ result_type parse_url_impl(std::string_view user_input,
           }
 
           url.has_opaque_path = base_url->has_opaque_path;
+          // The host comes from the base, and so does its kind.
+          url.host_type = base_url->host_type;
 
           // If c is U+003F (?), then set url's query to the empty string, and
           // state to query state.
@@ -855,6 +857,7 @@ result_type parse_url_impl(std::string_view user_input,
             url.update_host_to_base_host(base_url->get_hostname());
             url.update_base_port(base_url->retrieve_base_port());
           }
+          url.host_type = base_url->host_type;
           state = state::PATH;
           break;
         }
@@ -1122,6 +1125,7 @@ result_type parse_url_impl(std::string_view user_input,
             } else {
               url.update_host_to_base_host(base_url->get_host());
             }
+            url.host_type = base_url->host_type;
             // If the code point substring from pointer to the end of input does
             // not start with a Windows drive letter and base's path[0] is a
             // normalized Windows drive letter, then append base's path[0] to
@@ -1240,6 +1244,7 @@ result_type parse_url_impl(std::string_view user_input,
             }
           }
           url.has_opaque_path = base_url->has_opaque_path;
+          url.host_type = base_url->host_type;
 
           // If c is U+003F (?), then set url's query to the empty string and
           // state to query state.
